@@ -1,6 +1,6 @@
 -------------------------------- MODULE JCFG --------------------------------
 (* Judge clauses for the grammar properties C07 C08 (and the CFG part of C15)  *)
-EXTENDS Util, CFG, ChomskySteps
+EXTENDS Util, CFG, ChomskySteps, DeriveSteps
 
 BadG(name, cond) == IF cond THEN {name} ELSE {}
 
@@ -85,5 +85,7 @@ JDerive(e) ==
   IN IF e.exc = "Timeout" THEN {"terminates"}
      ELSE IF gen /\ e.exc # "none" THEN {"raised_" \o e.exc}
      ELSE IF gen THEN BadG("derivation_valid", ~ValidDerivation(G, e.w, e.seq, e.mode))
+                      (* (T) the recorded derivation is the one the model's two worklist loops produce *)
+                      \cup BadG("binding_derivation_equals_model", e.seq # ModelDerivation(G, e.w, e.mode))
      ELSE {}
 =============================================================================
